@@ -23,6 +23,8 @@ pub const CK_PARAMS: u32 = 512;
 pub const CK_LAZY: u32 = 1024;
 pub const CK_VS_SEQ: u32 = 2048;
 pub const CK_FN_SWEEP: u32 = 4096;
+/// double / garbage drops only (leaks are not judged)
+pub const CK_BADDROP: u32 = 8192;
 
 #[derive(Clone, Debug)]
 pub struct Item {
@@ -73,6 +75,9 @@ pub fn judge(item: &Item, obs: &Obs, seq: Option<&Result<hcore::visit::TermResul
     if ck & CK_RESULT != 0 {
         vs.extend(oracle::chk_result(&cx));
     }
+    if ck & (CK_RESULT | CK_SOURCE | CK_VS_SEQ | CK_DROPS) != 0 {
+        vs.extend(oracle::chk_pulls(&cx));
+    }
     if ck & (CK_CALLS | CK_CALLSEQ) != 0 {
         vs.extend(oracle::chk_calls(&cx, ck & CK_CALLSEQ != 0));
     }
@@ -81,6 +86,8 @@ pub fn judge(item: &Item, obs: &Obs, seq: Option<&Result<hcore::visit::TermResul
     }
     if ck & CK_DROPS != 0 {
         vs.extend(oracle::chk_drops(&cx, false));
+    } else if ck & CK_BADDROP != 0 {
+        vs.extend(oracle::chk_drops(&cx, true));
     }
     if ck & CK_THREADS != 0 {
         vs.extend(oracle::chk_threads(&cx));
